@@ -126,7 +126,22 @@ func TestC02Manager(t *testing.T) {
 	rec.Rule("manager level: PayPerInterval.OnUpdate on a memory/badger store with node.LastSeen = now-elapsed, elapsed in {0,1ns,interval-1,interval,interval+1,multiples,10y,any<=100y}, price 1..2^130, interval 1ns..1h, 0..6 peers (hosts, non-hosts, peers sharing the client's wallet or each other's), optional single injected fault at the k-th balance write; oracle: independent math/big floor(elapsed*price/interval) per peer, client debited the sum, host/zero/empty no movement, under a fault either every delta or none; non-trivial = light client with elapsed>0 and >=1 peer; distinct by (elapsed class, price bits, #peers, links, fault index)")
 	rec.Assume("all-or-nothing is checked for a single fault injected at a balance-store WRITE of one keep-alive (a failing read-back after the movement is not treated as a failed update)")
 	rapid.Check(t, func(rt *rapid.T) {
-		rapid.SyncTest(rt, func(rt *rapid.T) {
+		rapid.SyncTest(rt, func(rt *rapid.T) { mgrCaseRun(rt, rec, false) })
+	})
+}
+
+// TestC01ManagerFaults — the ledger total survives a store fault at any balance write of a keep-alive.
+func TestC01ManagerFaults(t *testing.T) {
+	rec := vt.For("C01")
+	rec.Rule("fault injection at manager level: one keep-alive (1-6 peers, wallets shared between client and peers, prices to 2^130) with a single injected failure at the k-th balance write, k drawn over every write position, memory/badger; oracle: Stats.TotalCredit is unchanged whether the keep-alive reports success or failure, and a failed keep-alive moved nothing; non-trivial = fault hit with >=2 peers; distinct by (#peers, links, fault index, outcome)")
+	rapid.Check(t, func(rt *rapid.T) {
+		rapid.SyncTest(rt, func(rt *rapid.T) { mgrCaseRun(rt, rec, true) })
+	})
+}
+
+func mgrCaseRun(rt *rapid.T, rec *vt.Rec, alwaysFault bool) {
+	{
+		{
 			driver := rapid.SampledFrom([]string{"memory", "memory", "badger"}).Draw(rt, "driver")
 			var st store.Store
 			if driver == "memory" {
@@ -175,7 +190,7 @@ func TestC02Manager(t *testing.T) {
 			st.AddNodeBalance(client.ID, big.NewInt(int64(rapid.IntRange(-1000, 1000000).Draw(rt, "startCredit"))))
 
 			failAt := 0
-			if rapid.IntRange(0, 2).Draw(rt, "injectFault") == 0 {
+			if alwaysFault || rapid.IntRange(0, 2).Draw(rt, "injectFault") == 0 {
 				failAt = rapid.IntRange(1, nPeers+1).Draw(rt, "failAt")
 			}
 			fs := &faultyBalanceStore{BalanceStore: st, failAt: failAt}
@@ -273,6 +288,9 @@ func TestC02Manager(t *testing.T) {
 				}
 			}
 			nontrivial := !isHost && elapsed > 0 && nPeers > 0
+			if alwaysFault {
+				nontrivial = faultHit && nPeers >= 2 && !isHost && elapsed > 0
+			}
 			elClass := "0"
 			switch {
 			case elapsed == 0:
@@ -289,8 +307,8 @@ func TestC02Manager(t *testing.T) {
 			rec.Case(sig, nontrivial, []string{"mgr:elapsed:" + elClass, "mgr:" + outcome, fmt.Sprintf("mgr:fault:%v", failAt > 0), "driver:" + driver}, func() interface{} {
 				return mgrCase{driver, price.String(), iv.String(), elapsed.String(), isHost, peerNames, links, failAt, perPeer.String(), outcome}
 			})
-		})
-	})
+		}
+	}
 }
 
 // TestC02Slicing — metamorphic: however a span T is cut into k keep-alives, a
